@@ -102,6 +102,19 @@ class MembraneModel:
         for k in keys:
             self.learned[k[0]] = k
 
+    def _last_index(self, key):
+        for j in range(len(self.static) - 1, -1, -1):
+            if self.static[j] == key:
+                return j
+        raise KeyError(key)
+
+    def replace(self, old_key, new_key):
+        """the most recently added static signature equal to old_key is replaced in place (rule count unchanged)"""
+        self.static[self._last_index(old_key)] = new_key
+
+    def remove(self, old_key):
+        del self.static[self._last_index(old_key)]
+
     @staticmethod
     def _in_window(times, now):
         return [t for t in times if t > now - WINDOW]
